@@ -203,5 +203,25 @@ func limitCases(c *vh.Ctx) []custom {
 			cu.mustErr, cu.cause = fmt.Sprintf("%s vector of %d bytes: the extension does not fit", v.name, n), "over-limit"
 		}
 	}
+	// ---- byte carries of NESTED length prefixes ----
+	// An n-byte field sits inside several prefixes (n, n+k1, n+k2, ... up to the extension header, `over` bytes of
+	// framing in all); each is written as byte(x>>8), byte(x).  Sweep n through every value at which one of them
+	// crosses a multiple of 256 (windows at 256 and 512: [W-over-2, W+1]), so that every prefix is seen on both
+	// sides of its own carry while its neighbours are not.  All of these are inside the limits: they must encode.
+	for _, v := range vecs {
+		for _, w := range []int{256, 512} {
+			k := 0
+			for n := w - v.over - 2; n <= w+1; n++ {
+				if n < 1 || n%v.elem != 0 {
+					continue
+				}
+				k++
+				cu := add(fmt.Sprintf("carry-%s-%d", v.name, n), fmt.Sprintf("%s: %d-byte vector, nested length prefixes around %d", v.name, n, w),
+					[]tls.TLSExtension{&tls.ExtendedMasterSecretExtension{}, &tls.SCTExtension{}, v.mk(n)})
+				cu.wf, cu.oracle = true, true
+				cu.noCoq = k%6 != 0 || w != 256 // every sixth of the first window also to the model (the extension terms are long literals)
+			}
+		}
+	}
 	return out
 }
